@@ -198,7 +198,8 @@ def _select_tag_expression_parser4auto(text_or_seq):
 
     text = text.replace("(", " ( ").replace(")", " ) ")
     words = text.split()
-    contains_v1_prefixes = _any_word_starts_with(words, TAG_EXPRESSION_V1_NOT_PREFIXES)
+    word_parts = [part for word in words for part in word.split(",")]
+    contains_v1_prefixes = _any_word_starts_with(word_parts, TAG_EXPRESSION_V1_NOT_PREFIXES)
     contains_v1_keywords = (_any_word_contains_keyword(words, TAG_EXPRESSION_V1_OTHER_KEYWORDS) or
                             # any((k in text) for k in TAG_EXPRESSION_V1_OTHER_KEYWORDS) or
                             contains_v1_prefixes)
